@@ -832,7 +832,7 @@ func (s *UtxoStore) ScriptAddressUnspents(tx mwdb.ReadTransaction, scriptAddrs m
 		if !ok {
 			continue
 		}
-		cred.flags.SpentByUnmined = existsRawUnminedInput(nsUnminedInputs, itKey) != nil
+		cred.flags.SpentByUnmined = existsRawUnminedInput(nsUnminedInputs, canonicalOutPoint(&op.Hash, op.Index)) != nil
 
 		item := &Credit{
 			OutPoint:      op,
